@@ -15,7 +15,7 @@ model checking (closed): one focus atom ranging over ALL 3612 combinations of th
            Inverse, NoWarning, Stable, TokensWellFormed.
            Spec-level negative controls, re-run in every check (each must make TLC report the named
            invariant): RestrictionsFirst -> NoWarning and Stable, IgnoreNegation -> Inverse,
-           PipeFirst -> Inverse.
+           PipeFirst -> Inverse; PkgRelationMemo: SharedNested (+ DeepStore) -> MemoTransparent.
 binding:   (a) every CASE line of TLC (the structure and its expected token string) is concretized
                (package names [a-z0-9][a-z0-9+.-]*, versions valid per DESIGN D2, architecture
                names, qualifiers, lower-case profile names) and replayed:
@@ -26,8 +26,22 @@ binding:   (a) every CASE line of TLC (the structure and its expected token stri
                parsed-back structure; TLC (TracePkgRelation) must explain the parse with Parse and
                find Inverse / NoWarning / Stable.  Stdlib random seeded from VERIF_SEED is used
                instead of hypothesis (one generator, deterministic per seed).
+history:   spec/PkgRelationMemo.tla models a memo layer between caller and reference parser with
+           object identity for the nested lists (heap cells), actions ParseCall / CallerMutates /
+           CallerReplaces and the invariant MemoTransparent (every Parse result equals the
+           reference Parse of its text whatever was parsed or edited before); SharedNested = TRUE
+           (results share nested lists with the memo: the seeded change C13-seedB), alone or with
+           DeepStore = TRUE (only the results of hits share), must make TLC report it.  Binding:
+           after EVERY round trip of (a) and (b) the returned structure is edited in place (append
+           to every arch list, reverse / extend every restriction formula, pop keys, reorder the
+           outer lists), the same string is parsed again, that result is edited and the string
+           parsed a third time, then a different relation sharing an alternative makes the round
+           trip, and str(r) is compared before / after formatting an edited deep copy of r (which
+           makes its own round trip): all under the same verdicts; in (b) TLC validates the later
+           results against the memo-free Parse (steps 5 and 6 of TracePkgRelation).
 verdict observables: parse_relations(str(r)) == r (TLC: Inverse), no warning (NoWarning), second
-           string == first string (Stable); any exception.
+           string == first string (Stable), for every call of a history (MemoTransparent); any
+           exception.
 diagnostic (drift, never an alarm): the produced string differs from the token string predicted by
            Format (blank details of the formatter), namedtuple types of the parsed entries, the
            same strings read through Packages(...).relations / Sources(...).relations, and "probe"
@@ -50,9 +64,9 @@ from concurrent.futures import ThreadPoolExecutor
 import core
 
 MANIFEST = dict(
-    technique="TLA+ spec PkgRelation (formatter as token sequence, the dependency regex as an automaton over token kinds with its optional groups in fixed order, the comma/pipe/blank/restriction splitters) model-checked by TLC over the closed space of all optional-part combinations x list shapes; every TLC case replayed into PkgRelation.str/parse_relations with concretized payloads; recorded executions on deeper random structures validated by TLC (TracePkgRelation)",
+    technique="TLA+ specs PkgRelation + PkgRelationMemo (formatter as token sequence, the dependency regex as an automaton over token kinds with its optional groups in fixed order, the comma/pipe/blank/restriction splitters) model-checked by TLC over the closed space of all optional-part combinations x list shapes; every TLC case replayed into PkgRelation.str/parse_relations with concretized payloads; recorded executions on deeper random structures validated by TLC (TracePkgRelation); a memo layer with shared nested lists as history model, histories with in-place edits of returned structures replayed and recorded",
     text="TLC enumerates every relation made of one focus atom -- all 3612 combinations of architecture qualifier, version constraint with each of the five operators, architecture lists of 1-2 plain or negated entries and restriction formulas of 1-2 groups of 1-2 plain or negated terms -- at every position of every list shape up to 3 conjuncts of 2 alternatives, surrounded by context atoms, and checks in each state Parse(Format(r)) = r, that the parser's warning fallback is never taken and Format(Parse(Format(r))) = Format(r); Parse is the one big regex written as an automaton over token kinds (name, qualifier, operator, version, arch, '!', profile, brackets, separators, blanks) with exactly the blank tolerance of the code. Each enumerated structure carries TLC's expected token string and is replayed into the real PkgRelation.str / parse_relations with package names over [a-z0-9+.-], versions with epoch, '~', '+' and hyphenated revisions, real architecture names, qualifiers and lower-case profile names: the parse must equal the structure exactly, without a warning, and formatting again must give the same string. In the other direction random deeper structures (5x4 atoms, 3 arch entries, 3x3 restriction terms) are formatted and parsed by the real code, the strings are tokenized independently and TLC must explain the parsed-back structure with Parse and find it equal to the input. The quick tier enumerates lists of up to 2 conjuncts of 2 alternatives with bare-name context atoms (54 171 structures), the thorough tier up to 3 x 2 with bare and fully-equipped context atoms (368 350 structures).",
-    note="Characters inside a payload token are sampled, not enumerated; profile names are lower case (DESIGN D3: the parser lower-cases them). The exact blanks written by the formatter are diagnostic only (drift). Trusted: TLC, the concretizer, the small context-sensitive tokenizer used for the recorded strings (a wrong tokenization is rejected by TLC, never accepted). A diagnostic leg (never an alarm) feeds strings with randomly changed blanks to the real parser and lets TLC predict the outcome, warning path included. Four spec-level negative controls and eight corrupted control traces are required to fail in every run.",
+    note="Characters inside a payload token are sampled, not enumerated; profile names are lower case (DESIGN D3: the parser lower-cases them). The exact blanks written by the formatter are diagnostic only (drift). Trusted: TLC, the concretizer, the small context-sensitive tokenizer used for the recorded strings (a wrong tokenization is rejected by TLC, never accepted). A diagnostic leg (never an alarm) feeds strings with randomly changed blanks to the real parser and lets TLC predict the outcome, warning path included. The round trip is also checked as a history: a small TLA+ model of a memo layer with object identity (PkgRelationMemo) states that no earlier call or caller-side edit may influence Parse; after every replayed case and every recorded execution the returned structure is edited in place, the same string is parsed twice more and a relation sharing an alternative makes the round trip, under the same verdicts. Six spec-level negative controls and twelve corrupted control traces are required to fail in every run.",
     design="5 (C13)")
 
 OPS = ["<<", "<=", "=", ">=", ">>"]
@@ -588,6 +602,8 @@ def check_case(ctx, rel_abs, codes, conc, diag, with_copy=True):
                 if diag["types"] <= 3:
                     ctx.drift("%s for %r" % (td, o["s"]))
         msg = judge_history(r_py, o, run_history(r_py, o, with_copy=with_copy))
+        if msg:
+            msg = "[history] " + msg
     return msg, o["s"], r_py
 
 
@@ -663,13 +679,14 @@ def spec_negative_controls(ctx):
     r = ctx.tlc("PkgRelationMemo", "MC_PkgRelationMemo.cfg", workers=1, java_opts=["-XX:ParallelGCThreads=2"])
     if r.violated:
         raise core.MachineryError("specification PkgRelationMemo violates %s\n%s" % (r.violated, r.tail))
-    cfg = base.replace("SharedNested = FALSE", "SharedNested = TRUE")
-    assert cfg != base
-    cfg = re.sub(r"(?m)^INVARIANT (?!MemoTransparent$).*\n", "", cfg)
-    r = ctx.tlc("PkgRelationMemo", cfg, workers=1, count=False, java_opts=["-XX:ParallelGCThreads=2"])
-    if r.violated != "MemoTransparent":
-        raise core.MachineryError("negative control SharedNested: expected TLC to report MemoTransparent, got %r" % (r.violated,))
-    done.append("SharedNested -> MemoTransparent (PkgRelationMemo)")
+    for deep in ("FALSE", "TRUE"):
+        cfg = base.replace("SharedNested = FALSE", "SharedNested = TRUE").replace("DeepStore = FALSE", "DeepStore = " + deep)
+        assert cfg != base
+        cfg = re.sub(r"(?m)^INVARIANT (?!MemoTransparent$).*\n", "", cfg)
+        r = ctx.tlc("PkgRelationMemo", cfg, workers=1, count=False, java_opts=["-XX:ParallelGCThreads=2"])
+        if r.violated != "MemoTransparent":
+            raise core.MachineryError("negative control SharedNested (DeepStore = %s): expected TLC to report MemoTransparent, got %r" % (deep, r.violated))
+        done.append("SharedNested%s -> MemoTransparent (PkgRelationMemo)" % (" + DeepStore" if deep == "TRUE" else ""))
     return done
 
 
@@ -745,7 +762,7 @@ def _replay_chunk(lines):
             if msg:
                 res["nfail"] += 1
                 # the smallest failing structures are reported (canonical payload first)
-                key = (sum(len(x) for x in rel_abs), len(v["t"]), not canonical, h)
+                key = (msg.startswith("[history]"), sum(len(x) for x in rel_abs), len(v["t"]), not canonical, h)
                 res["failing"].append((key, {"kind": "case", "abstract": rel_abs, "tokens": v["t"], "conc": conc.to_json(),
                                              "string": s}, msg))
                 res["failing"].sort(key=lambda x: x[0])
@@ -1079,8 +1096,14 @@ BATCH = 4000     # traces per TLC invocation (JsonDeserialize holds the whole fi
 
 def validate(ctx, traces, with_controls=True, workers=2):
     controls = control_traces(traces) if with_controls else []
-    if with_controls and len(controls) < 9:
-        raise core.MachineryError("only %d control traces could be built" % len(controls))
+    if with_controls:
+        good = sum(1 for t in traces if t["kind"] == "rt" and not t["exc"] and not t["warn"] and t["same"])
+        if len(controls) < 9 and good >= 50:
+            raise core.MachineryError("only %d control traces could be built" % len(controls))
+        if not controls:
+            # the code under test fails every recorded round trip (they are all reported below): there is
+            # no acceptable trace to corrupt; keep the run honest with a control TLC must reject anyway
+            controls = [dict(copy.deepcopy(traces[0]), exc="Control")]
     rejected, fmt_drift, info = [], [], {}
     for lo in range(0, len(traces), BATCH):
         part = traces[lo:lo + BATCH]
